@@ -29,6 +29,7 @@ PROP_MODULES = {
     "C07": ["contracts.c07"],
     "C20": ["contracts.c20"],
     "C06": ["contracts.c06"],
+    "C01": ["contracts.c01"],
 }
 
 
@@ -57,6 +58,7 @@ def _worker(args):
     modname, idx, tier, seed, regions = args
     try:
         sys.setrecursionlimit(20000)
+        sys.set_int_max_str_digits(0)
         from pyvc import contract as C
         from pyvc.runner import verify_contract
 
